@@ -239,13 +239,43 @@ func panicSites(x *Ctx, fns []*ssa.Function, R map[*ssa.Function]bool) {
 	}
 	// literal.anyAssemble is reached only under a recover or inside qp closures
 	if f := x.P.Func("pkg/policy/literal.anyAssemble"); f != nil {
+		// every call chain that reaches anyAssemble passes through a function that recovers (a deferred recover)
+		// or through a closure handed to a qp builder (which recovers): wherever that function sits
 		bad := ""
-		for _, e := range x.P.CallersOf(f) {
-			c := e.Caller.Func
-			name := load.ShortName(c)
-			ok := name == "pkg/policy/literal.Any" && hasDeferredRecover(c) || name == "pkg/policy/literal.anyAssemble" || inQPClosure(c) || strings.HasPrefix(name, "pkg/policy/literal.anyAssemble$")
+		state := map[*ssa.Function]int{} // 1 in progress, 2 protected, 3 unprotected
+		var protected func(c *ssa.Function) bool
+		protected = func(c *ssa.Function) bool {
+			switch state[c] {
+			case 1, 2:
+				return true
+			case 3:
+				return false
+			}
+			state[c] = 1
+			ok := hasDeferredRecover(c) || inQPClosure(c)
 			if !ok {
-				bad += name + " calls anyAssemble without a recover\n"
+				callers := x.P.CallersOf(c)
+				if c.Parent() != nil {
+					ok = protected(c.Parent())
+				} else if len(callers) > 0 && !(c.Object() != nil && c.Object().Exported()) {
+					ok = true
+					for _, e := range callers {
+						if !protected(e.Caller.Func) {
+							ok = false
+						}
+					}
+				}
+			}
+			if ok {
+				state[c] = 2
+			} else {
+				state[c] = 3
+			}
+			return ok
+		}
+		for _, e := range x.P.CallersOf(f) {
+			if c := e.Caller.Func; c != f && !protected(c) {
+				bad += load.ShortName(c) + " calls anyAssemble without a recover on every way to it\n"
 			}
 		}
 		x.C.Obl("C09.P1", "recovered:anyAssemble", x.pos(f), "anyAssemble is only called under literal.Any's deferred recover or inside qp closures", bad == "", bad)
